@@ -196,6 +196,8 @@ def make_mutation(mu, names, cur_sig=None, palette=None):
             val = [tuple(names.field(x) for x in t) for t in mu['val']]
         elif mu['prop'] == 'indexes':
             val = [concrete_index(ix, names) for ix in mu['ival']]
+        elif mu['prop'] == 'constraints':
+            val = [concrete_constraint(c, names) for c in mu['ival']]
         else:
             val = mu['val']
         return ChangeMeta(names.model(mu['m']), mu['prop'], val)
@@ -217,6 +219,37 @@ def concrete_index(ix, names):
         from django.db.models import Q
         out['condition'] = Q(**{'%s__gt' % names.field(ix['cond']): 0})
     return out
+
+
+CHECK_MIN = -9999999999      # every value of the row palette satisfies the check
+
+
+def concrete_constraint(c, names, as_dict_form=True):
+    """Abstract constraint record -> ChangeMeta entry (dict) or Django constraint object."""
+    from django.db import models
+    cond = c.get('cond', NONE)
+    if c['kind'] == 'check':
+        kw = {'check': models.Q(**{'%s__gte' % names.field(cond): CHECK_MIN})}
+        typ = models.CheckConstraint
+    else:
+        kw = {'fields': [names.field(x) for x in c['fields']]}
+        if cond not in (NONE, None):
+            kw['condition'] = models.Q(**{'%s__gt' % names.field(cond): 0})
+        typ = models.UniqueConstraint
+    if as_dict_form:
+        return dict(kw, type=typ, name=c['name'])
+    return typ(name=c['name'], **kw)
+
+
+def abstract_constraint(cs, names):
+    """Real ConstraintSignature -> abstract record (see concrete_constraint)."""
+    from django.db import models
+    attrs = cs.attrs or {}
+    if issubclass(cs.type, models.CheckConstraint):
+        return {'kind': 'check', 'fields': [], 'name': cs.name,
+                'cond': index_cond({'condition': attrs.get('check')}, names)}
+    return {'kind': 'unique', 'fields': [names.rfields.get(x, x) for x in (attrs.get('fields') or [])],
+            'name': cs.name, 'cond': index_cond(attrs, names)}
 
 
 def index_cond(attrs, names):
@@ -334,6 +367,7 @@ def project_sig(project_sig, names):
                                 for x in (ix.fields or [])],
                      'name': ix.name or NONE,
                      'cond': index_cond(ix.attrs, names)} for ix in ms.index_sigs],
+            'cons': [abstract_constraint(cs, names) for cs in ms.constraint_sigs],
         }
     return out
 
@@ -350,6 +384,8 @@ def norm_sig(sig):
                    'uta': ms.get('uta', True),
                    'idx': [dict(ix, cond=ix.get('cond', NONE) or NONE)
                            for ix in (ms.get('idx') or [])]}
+        out[mn]['cons'] = [dict(c, fields=list(c.get('fields') or []), cond=c.get('cond', NONE) or NONE)
+                           for c in (ms.get('cons') or [])]
         if ms.get('it'):
             out[mn]['it'] = [list(t) for t in ms['it']]
     return out
@@ -369,6 +405,9 @@ def sig_equal_abstract(a, b):
         if (x['ut'] or y['ut']) and x['uta'] != y['uta']:
             return False
         if sorted(map(repr, x['idx'])) != sorted(map(repr, y['idx'])):
+            return False
+        if sorted(repr(sorted(c.items())) for c in x['cons']) != \
+                sorted(repr(sorted(c.items())) for c in y['cons']):
             return False
     return True
 
